@@ -1202,11 +1202,15 @@ Proof. intros H. unfold check. apply N.ltb_lt in H. now rewrite H. Qed.
 Section Faithful.
   Variable seal : bytes -> bytes -> bytes -> bytes.
   Variable open : bytes -> bytes -> bytes -> option bytes.
-  Hypothesis open_seal : forall k ad p, open k ad (seal k ad p) = Some p.
-  Hypothesis seal_len : forall k ad p, len (seal k ad p) = tag_len + len p.
+  (* the two AEAD laws are only needed for the keys in use: [good] selects them (the real AEAD has keys it
+     refuses); the unconditional form is the instance good := fun _ => True *)
+  Variable good : bytes -> Prop.
+  Hypothesis open_seal : forall k ad p, good k -> open k ad (seal k ad p) = Some p.
+  Hypothesis seal_len : forall k ad p, good k -> len (seal k ad p) = tag_len + len p.
 
   (* one message: written by A, carried unchanged, accepted by B and queued *)
   Lemma one_message max A B a m :
+    good (key_send A) ->
     in_sync A B -> count A + 1 < lim -> qlen (queue B) < qcap B -> len m <= max ->
     exists d,
       write_msg seal max A m = Ok (set_count A (count A + 1), d) /\ snd d = remote A /\
@@ -1215,7 +1219,7 @@ Section Faithful.
       in_sync (set_count A (count A + 1))
               (set_remote (set_queue (set_window B (mark (window B) (count A))) (queue B ++ [m])) a).
   Proof.
-    intros (HcA&HcB&Hk&Hs&Hl&Hwt&Hch) Hcnt Hq Hm.
+    intros Hg (HcA&HcB&Hk&Hs&Hl&Hwt&Hch) Hcnt Hq Hm.
     assert (Hc64 : count A < 2 ^ 64) by (apply lim_lt_64; lia).
     assert (Hu : u64_add (count A) 1 = count A + 1).
     { unfold u64_add. apply N.mod_small. change two64 with 18446744073709551616. rewrite lim_val in Hcnt. lia. }
@@ -1227,18 +1231,18 @@ Section Faithful.
     assert (W : write_msg seal max A m = Ok (set_count A (count A + 1), (hdr ++ enc, remote A))).
     { unfold write_msg. replace (max <? len m) with false by lia.
       unfold send. rewrite HcA. unfold seal_packet. fold hdr. rewrite Had. fold enc.
-      unfold enc at 1. rewrite seal_len, N.eqb_refl. cbn [negb]. now rewrite Hu. }
+      unfold enc at 1. rewrite seal_len by exact Hg. rewrite N.eqb_refl. cbn [negb]. now rewrite Hu. }
     split; [exact W|]. split; [reflexivity|]. cbn [fst].
     destruct (parse_built mt_transport (sid A) (count A) enc Hl Hc64) as (P1&P2&P3&P4&P5&P6&P7&P8&P9).
     fold hdr in P1, P2, P3, P4, P5, P6, P7, P8, P9.
     assert (Ho : opens open B (hdr ++ enc) = Some m).
     { unfold opens. rewrite HcB. unfold wf_header.
       rewrite P1, P2, P3, P4, P5, P6, P9, Hs, beq_bytes_refl, Hch.
-      unfold enc at 1. rewrite seal_len. unfold tag_len.
+      unfold enc at 1. rewrite seal_len by exact Hg. unfold tag_len.
       replace (48 <=? 16 + (32 + len m)) with true by lia. cbn [negb andb orb N.eqb mt_transport Pos.eqb].
-      rewrite Hk, P7, P8. apply open_seal. }
+      rewrite Hk, P7, P8. now apply open_seal. }
     pose proof (session_input_spec open B a (hdr ++ enc)) as S. rewrite Ho in S.
-    rewrite P9 in S. unfold enc at 1 in S. rewrite seal_len in S. unfold tag_len in S.
+    rewrite P9 in S. unfold enc at 1 in S. rewrite seal_len in S by exact Hg. unfold tag_len in S.
     replace (len m + 48 =? 16 + (32 + len m)) with true in S by lia.
     rewrite S, P1, P6. unfold apply_auth. cbn [N.eqb mt_transport Pos.eqb set_window qcap queue].
     apply N.ltb_lt in Hq. rewrite Hq. split; [reflexivity|].
@@ -1250,6 +1254,7 @@ Section Faithful.
   Definition sum_ranges (rs : list (N * N)) : N := fold_right (fun r t => (snd r - fst r) + t) 0 rs.
 
   Lemma loop_delivered max b a : forall rs A B out total,
+    good (key_send A) ->
     in_sync A B -> count A + N.of_nat (length rs) < lim -> qlen (queue B) + N.of_nat (length rs) <= qcap B ->
     Forall (fun r => snd r - fst r <= max /\ snd r <= len b /\ fst r <= snd r) rs ->
     let w := write_loop seal max A b rs out total in
@@ -1261,13 +1266,13 @@ Section Faithful.
       queue B' = queue B ++ map (fun r => slice b (fst r) (snd r)) rs /\
       rbuf B' = rbuf B /\ closed B' = false /\ (rs <> [] -> remote B' = a).
   Proof.
-    induction rs as [|[i e] r IH]; intros A B out total Hs Hc Hq Hall.
+    induction rs as [|[i e] r IH]; intros A B out total Hg Hs Hc Hq Hall.
     - simpl. repeat split; auto; try lia. exists [], B. rewrite !app_nil_r. repeat split; auto.
       + destruct Hs as (_&H&_). exact H.
       + congruence.
     - inversion Hall as [|? ? [R1 [R2 R3]] Hall']; subst. cbn [fst snd] in *.
       cbn [length] in Hc, Hq.
-      destruct (one_message max A B a (slice b i e)) as [d (W&Wd&Sin&Hs')]; auto; try lia.
+      destruct (one_message max A B a (slice b i e) Hg) as [d (W&Wd&Sin&Hs')]; auto; try lia.
       { rewrite slice_eq, len_take, len_drop. lia. }
       cbn [write_loop]. rewrite W.
       set (A' := set_count A (count A + 1)) in *.
@@ -1291,7 +1296,8 @@ Section Faithful.
 
   (* C03 completeness: on a faithful network every byte accepted by a write call of ANY size is delivered,
      in order, and the call reports exactly the number of bytes it was given *)
-  Theorem write_delivered max A B a b w :
+  Theorem write_delivered_good max A B a b w :
+    good (key_send A) ->
     0 < max -> in_sync A B ->
     count A + len b + 1 < lim ->                        (* the property's bound on counters *)
     qlen (queue B) + len b + 1 <= qcap B ->              (* scope: the receive queue never fills up *)
@@ -1301,8 +1307,8 @@ Section Faithful.
     exists B', feed open B a (map fst (w_out w)) = Ok (B', repeat ODelivered (length (w_out w))) /\
                List.concat (queue B') = List.concat (queue B) ++ b /\ rbuf B' = rbuf B /\ remote B' = a.
   Proof.
-    intros Hmax Hs Hc Hq. unfold write. destruct (N.leb_spec (len b) max) as [Hle|Hgt].
-    - destruct (one_message max A B a b) as [d (W&Wd&Sin&Hs')]; auto; try lia.
+    intros Hg Hmax Hs Hc Hq. unfold write. destruct (N.leb_spec (len b) max) as [Hle|Hgt].
+    - destruct (one_message max A B a b Hg) as [d (W&Wd&Sin&Hs')]; auto; try lia.
       rewrite W. intros H. inversion H; subst. cbn. repeat split; auto.
       eexists. rewrite Sin. split; [reflexivity|]. cbn. rewrite concat_app. cbn. now rewrite app_nil_r.
     - destruct (chunk_ranges_spec max b Hmax (S (length b)) 0) as [rs [E [Hcat [Hsum Hall]]]]; [lia|unfold len; lia|].
@@ -1326,6 +1332,23 @@ Section Faithful.
       + exists B'. rewrite I7, I8, concat_app, Hcat, drop_0. auto.
   Qed.
 End Faithful.
+
+(* the form with unconditional AEAD laws *)
+Theorem write_delivered seal open :
+  (forall k ad p, open k ad (seal k ad p) = Some p) ->
+  (forall k ad p, len (seal k ad p) = tag_len + len p) ->
+  forall max A B a b w,
+    0 < max -> in_sync A B ->
+    count A + len b + 1 < lim ->
+    qlen (queue B) + len b + 1 <= qcap B ->
+    write seal max A b = Some w ->
+    w_err w = false /\ w_panic w = false /\ w_n w = len b /\
+    Forall (fun d : dgram => snd d = remote A) (w_out w) /\
+    exists B', feed open B a (map fst (w_out w)) = Ok (B', repeat ODelivered (length (w_out w))) /\
+               List.concat (queue B') = List.concat (queue B) ++ b /\ rbuf B' = rbuf B /\ remote B' = a.
+Proof.
+  intros Hos Hsl max A B a b w. apply (write_delivered_good seal open (fun _ => True)); auto.
+Qed.
 
 (* ---------------------------------------------------------------- the wire image *)
 Section Wire.
